@@ -32,19 +32,36 @@ case.sharded = True
 def _case(draw, tier, names):
     c = draw(catgen.cat_case(names, max_rows=5 if tier == "quick" else 9))
     c["mode"] = draw(st.sampled_from(["full", "two", "partial"]))
-    c["j"] = draw(st.integers(1, 6))
+    c["j"] = draw(st.integers(0, 6))
+    e = catalog.get(c["entry"])
+    # strategy variants hand the caller's own row/header objects to different code paths
+    variants = ["default"] + (["chunk", "nocache"] if e.has("sorted") else []) + (["presorted", "presorted"] if e.has("presorted") else [])
+    c["variant"] = draw(st.sampled_from(variants))
     return c
 
 
 def check(case, ctx):
     e = catalog.get(case["entry"])
     S = codec.snapshot(case["sources"])  # fresh mutable copy
+    variant = case.get("variant", "default")
+    kw = {}
+    if variant == "presorted":
+        from pv.ref import base as R
+        if any(len(r) != len(t[0]) for t in S for r in t[1:]):
+            variant = "default"  # presorted inputs are kept rectangular (see C11)
+        else:
+            S = [[list(r) for r in R.ref_sort(t, e.presort)] for t in S]
+            kw = {"presorted": True}
+    if variant == "chunk":
+        kw = {"buffersize": 2, "tempdir": ctx.tmpdir()}
+    elif variant == "nocache":
+        kw = {"cache": False}
     snap = codec.snapshot(S)
     mode = case["mode"]
-    ctx.label("entry:" + e.name, "mode:" + mode)
+    ctx.label("entry:" + e.name, "mode:" + mode, "variant:" + variant)
     n_src = min(len(t) - 1 for t in S)
     try:
-        res = catgen.build(e, S)
+        res = catgen.build(e, S, **kw)
         if e.has("nonview"):
             e.norm(res)
             if mode == "two" and not e.has("oneshot"):
